@@ -140,3 +140,17 @@ EAGER = make(True, False)
 LAZY = make(False, False)
 FROZEN = make(True, True)
 FAMILIES = {"eager": EAGER, "lazy": LAZY, "frozen": FROZEN}
+
+# declared types (reference copy used by the conformance oracle; never read from library metadata)
+TYPES = {
+    "Inner": {"a": int, "tags": List[str]},
+    "Item": {"k": str, "v": int},
+    "K1": {"x": int, "n": int, "s": str, "f": float, "o": Optional[str], "u": Union[int, str], "lit": Literal["r", "w", 3]},
+    "K2": {"nums": List[int], "opts": Dict[str, int], "vals": Set[int], "tags": List[str], "y": int, "extras": List[int], "flags": Dict[str, int], "marks": Set[int]},
+    "K3": {"inner": "Inner", "inner2": "Inner", "kids": ("list", "Inner"), "by_name": ("dict", str, "Inner"), "y": int},
+    "K4": {"items": ("klist", "Item"), "bag": ("kset", "Item"), "lst": ("list", "Item"), "y": int},
+    "K5": {"x": int, "w": int, "z": int, "big": List[int], "pw": int, "scores": List[int]},
+    "Base": {"x": int, "ys": List[int]},
+    "Sub": {"x": int, "ys": List[int], "y": int},
+    "Plain": {"x": int, "ys": List[int], "y": int},
+}
